@@ -357,7 +357,14 @@ func (s *Subscriber) OnSyncFinished() (<-chan SyncFinished, context.CancelFunc) 
 	cq := chanqueue.New[SyncFinished]()
 	ch := cq.In()
 	verifhook.Point("listener.add", nil)
-	s.addEventChan <- ch
+	select {
+	case s.addEventChan <- ch:
+	case <-s.closing:
+		// The subscriber is closed or closing, and the distributor may
+		// already have exited. Return a closed channel instead of blocking.
+		close(ch)
+		return cq.Out(), func() {}
+	}
 
 	cncl := func() {
 		if ch == nil {
